@@ -46,6 +46,11 @@ def run(tier, seed, res, lean):
         res.violations.append(Violation('c04-columns', b['msg'][:400], {'suite': 'S-COL', **b}))
     for b in alias_bad[:3]:
         res.violations.append(Violation('c04-columns-ids', b['msg'][:400], {'suite': 'S-COL', **b}))
+    # a cache behind GroupBy over fields hashed by value whose values repeat across entries: every group gets its own dict
+    from .. import suite_ghash
+    gb = [p for i in range(12 if tier == 'quick' else 80) for p in suite_ghash.run_byvalue_groups(seed * 467 + i) if p['kind'] == 'c04']
+    for b in gb[:3]:
+        res.violations.append(Violation('c04-grouped-by-value', b['msg'][:400], {'suite': 'S-GHASH/by-value groups', **b}))
     # concrete values (numpy arrays, dicts with unusual keys, nested containers, ...) through the default serializers
     zoo_bad, zoo_calls = suite_cache.run_value_zoo(paths.SCRATCH)
     for b in zoo_bad[:4]:
